@@ -120,14 +120,22 @@ def fallback_witness(u, sc, work, tier, reason):
     raise FallbackViolation(u, f, plain)
 
 
-def thorough_verus(u, base, seed, work, log):
+def thorough_verus(u, base, seed, work, log, prop=None):
     """canaries, mutants, stability.  Returns (info dict); raises Undecided on a degraded check"""
     info = {'canaries': [], 'mutants': [], 'stability': []}
     sc = base['sc']
     from .unit import Extract
+    fnp, dfl = u.get('fn_properties'), u.get('default_fn_properties') or u['properties']
+
+    def relevant(path_or_item):
+        """multi-property units: canaries and mutants only for the functions this property depends on"""
+        if fnp is None or prop is None:
+            return True
+        nm = path_or_item.split(' :: ')[-1].replace('fn ', '').strip()
+        return prop in fnp.get(nm, dfl)
     # canaries: every contracted function, re-verified with `ensures false`, must FAIL
     for part in sc.parts:
-        if isinstance(part, Extract) and part.path.split(' :: ')[-1].startswith('fn ') and any(s.kind == 'sig' for s in part.splices) and not part.assume_body:
+        if isinstance(part, Extract) and part.path.split(' :: ')[-1].startswith('fn ') and any(s.kind == 'sig' for s in part.splices) and not part.assume_body and relevant(part.path):
             asm = assemble(sc, canary=part.path)
             r = VB.run_verus(asm, work, u['name'] + '_canary')
             ok = r.status == 'failed' and any(f.kind == 'canary' for f in r.failures)
@@ -138,6 +146,8 @@ def thorough_verus(u, base, seed, work, log):
     for mp in sorted(glob.glob(os.path.join(u['dir'], 'mutants', '*.json'))):
         m = json.load(open(mp))
         hits = [0]
+        if m.get('item') and not relevant(m['item']):
+            continue
 
         def mut(path, text, m=m, hits=hits):
             if m.get('item') and m['item'] not in path:
@@ -234,8 +244,17 @@ def _run(prop, units, tier, seed, work, t0):
                 res, asm = base['res'], base['asm']
                 if res.status == 'undecided':
                     raise Undecided('%s: %s' % (name, res.reason))
-                n_fn = len([f for f in asm.functions if ' fn ' in ' ' + f['item'] or f['item'].startswith('fn ')])
+                n_fn = len([f for f in asm.functions if (' fn ' in ' ' + f['item'] or f['item'].startswith('fn ')) and not f.get('mode', '').startswith('signature only')])
                 n_obl = asm.clause_count + n_fn            # clauses + one safety group (bounds/overflow/termination) per function
+                if u.get('fn_properties') is not None:
+                    # a multi-property unit: count only the functions this property depends on
+                    fnp_, dfl_ = u['fn_properties'], u.get('default_fn_properties') or u['properties']
+                    def _rel(item):
+                        nm = item.split(' :: ')[-1].replace('fn ', '').strip()
+                        return prop in fnp_.get(nm, dfl_)
+                    rel_fns = [f for f in asm.functions if (' fn ' in ' ' + f['item'] or f['item'].startswith('fn ')) and not f.get('mode', '').startswith('signature only') and _rel(f['item'])]
+                    n_fn = len(rel_fns)
+                    n_obl = sum(asm.clauses_by_fn.get(f['item'], 0) for f in rel_fns) + n_fn
                 failed = res.failures
                 # a unit that serves several properties names, per function, the properties that depend on it: a failed
                 # obligation of a function this property does not depend on is not a violation of THIS property
@@ -258,10 +277,15 @@ def _run(prop, units, tier, seed, work, t0):
                 checker_cmds.append(res.cmd)
                 assumptions += ['%s: %s' % (name, a) for a in base['assumptions']]
                 assumptions += ['%s: %s' % (name, a) for a in u.get('assumptions', [])]
+                assumptions += ['%s: ASSUMED contract of %s (%d clause(s)%s): %s' % (name, a['fn'], a['clauses'], ', proved in unit ' + a['proved_in'] if a['proved_in'] else '', a['text']) for a in asm.assumed]
                 trusted.update(u.get('trusted_base', []))
                 functions += [dict(f, unit=name) for f in asm.functions]
                 drops += [dict(d, unit=name) for d in asm.drops]
-                samples += _obligation_names(asm, name)
+                names_ = _obligation_names(asm, name)
+                if u.get('fn_properties') is not None:
+                    keep = {f['item'].split(' :: ')[-1].replace('fn ', '').strip() for f in rel_fns}
+                    names_ = [n for n in names_ if n.split('::')[0] in keep]
+                samples += names_
                 for f in failed:
                     all_failures.append((u, base, f))
                 evidence_units.append({'unit': name, 'backend': 'verus', 'verus_verified_items': res.verified, 'verus_errors': res.errors,
@@ -270,7 +294,7 @@ def _run(prop, units, tier, seed, work, t0):
                                        'per_function': res.fn_breakdown, 'source_sha256': asm.sources,
                                        'assembler_selfcheck': asm.selfcheck_ok, 'binds': asm.binds})
                 if tier == 'thorough' and res.status == 'verified':
-                    extra_info[name] = thorough_verus(u, base, seed, work, None)
+                    extra_info.setdefault(name, {}).update(thorough_verus(u, base, seed, work, None, prop=prop))
             elif u['backend'] in ('kani', 'native'):
                 if u['backend'] == 'kani':
                     from .kani_backend import run_kani_unit
@@ -405,13 +429,16 @@ def _match_known(known, prop, f):
 def _obligation_names(asm, unit):
     """the named obligations of a unit: one per labelled clause line in a splice + safety group per fn"""
     out = []
+    assumed_fns = {a['fn'] for a in asm.assumed}
     for line, o in zip(asm.text.split('\n'), asm.origins):
-        if o.kind == 'splice' and o.block not in ('ret',):
+        if o.kind == 'splice' and o.block not in ('ret',) and o.fn not in assumed_fns:
             m = re.search(r'//#\s*(.+?)\s*$', line)
             if m:
                 out.append('%s::%s::%s' % (o.fn.split(' :: ')[-1].replace('fn ', ''), o.block, m.group(1)))
     for f in asm.functions:
         last = f['item'].split(' :: ')[-1]
+        if f.get('mode', '').startswith('signature only'):
+            continue
         if last.startswith('fn '):
             out.append('%s::safety(bounds, overflow, callee preconditions, termination)' % last[3:])
     return out
